@@ -30,7 +30,9 @@ def s_run(rng, budget_words=2600):
         sizes.append(rng.choice([n for n in range(13) if n not in sizes]))
     D = rng.randint(4, 16)
     j = _job("S", rng, K=K, D=D, sizes=sizes, types=types, **{"yield": rng.randint(0, 1), "main": rng.randint(0, 1)},
-             preempt=rng.choice(PREEMPT))
+             preempt=rng.choice(PREEMPT), warm=1 if rng.random() < 0.33 else 0)
+    if K <= 4 and rng.random() < 0.3:
+        j["gens"] = rng.choice([2, 3])  # thread churn: workers come in successive generations
     # keep the run inside the per-run budget: first shrink the biggest size, then D
     while words_of(j) > budget_words:
         m = max(j["sizes"])
@@ -64,6 +66,7 @@ def m_run(rng, reps):
     K = rng.randint(1, min(3, kmax))
     main = rng.randint(0, 1) if K > 1 or P <= 4 else 0
     j = _job("M", rng, K=K - main if K > 1 else K, main=main if K > 1 else 0, D=reps, sizes=sorted(set(n for _, n in cyc)), cycle=cyc, types="both",
+             warm=rng.randint(0, 1),
              preempt=rng.choice(PREEMPT), **{"yield": rng.randint(0, 1)})
     if rng.random() < 0.25:
         j["ops"] = rng.getrandbits(31) | 1
@@ -73,12 +76,23 @@ def m_run(rng, reps):
 NOPS = 20  # keep in step with sim/src/ops.rs
 
 
+def g_run(rng):
+    """Thread churn: G successive generations of K short-lived threads (each joined before the next
+    starts) draw a few multi-word tables; half of the runs push Miri's address-reuse rates to 1."""
+    j = _job("G", rng, K=rng.choice([1, 2, 4]), gens=rng.choice([3, 4, 6]), D=rng.choice([4, 8]), sizes=[rng.choice([7, 8, 8, 9])],
+             types=rng.choice(["lut", "static", "both"]), main=rng.randint(0, 1), warm=rng.randint(0, 1), preempt=rng.choice(PREEMPT),
+             **{"yield": rng.randint(0, 1)})
+    if rng.random() < 0.5:
+        j["extra_flags"] = ["-Zmiri-address-reuse-rate=1.0", "-Zmiri-address-reuse-cross-thread-rate=1.0"]
+    return j
+
+
 def o_run(rng, op):
     """Op sweep: the same other public API call after EVERY draw, 256 draws per size and type."""
     sizes = [rng.choice([2, 3, 4, 5, 6, 0, 1, 7, 3, 4, 5, 6])]
     ops = 2 * (op + NOPS * (1 + rng.randrange(63)))  # even seed = fixed mode: op = (ops/2) % NOPS, arg = (ops/2) / NOPS
     k, m = rng.choice([(1, 0), (0, 1), (1, 1)])
-    return _job("O", rng, K=k, main=m, D=256, sizes=sizes, types="both", ops=ops,
+    return _job("O", rng, K=k, main=m, D=256, sizes=sizes, types="both", ops=ops, warm=rng.randint(0, 1) if k else 0,
                 preempt=rng.choice(PREEMPT), **{"yield": rng.randint(0, 1)})
 
 
@@ -88,9 +102,10 @@ def make_plan(seed, tier):
     # L1 — the literal single-thread clause, complete: 256 draws, every size, both types.
     for typ in ("lut", "static"):
         for n in range(13):
-            on_main = rng.random() < 0.5  # "1 thread" = the main thread or a lone spawned thread
-            jobs.append(_job("L1", rng, K=0 if on_main else 1, main=1 if on_main else 0, D=256, sizes=[n], types=typ,
-                             preempt=rng.choice(PREEMPT)))
+            # "1 thread" = a lone spawned thread that is NOT the first caller in the process (the main thread
+            # made one warm-up draw before it), the main thread itself, or a lone spawned thread that is first
+            k, m, w = rng.choice([(1, 0, 1), (1, 0, 1), (0, 1, 0), (1, 0, 0)])
+            jobs.append(_job("L1", rng, K=k, main=m, warm=w, D=256, sizes=[n], types=typ, preempt=rng.choice(PREEMPT)))
     combos = [(typ, n) for typ in ("lut", "static") for n in range(13)]
     if tier == "quick":
         # L16 — the literal 16-thread clause on a seed-chosen 4 of the 14 single-word combinations
@@ -109,6 +124,9 @@ def make_plan(seed, tier):
         # O — every neighbour operation once, after every draw
         for op in range(NOPS):
             jobs.append(o_run(rng, op))
+        # G — thread churn
+        for _ in range(6):
+            jobs.append(g_run(rng))
         n_s = 64
     else:
         for typ, n in combos:
@@ -129,6 +147,18 @@ def make_plan(seed, tier):
         for rep in range(3):
             for op in range(NOPS):
                 jobs.append(o_run(rng, op))
+        for _ in range(48):
+            jobs.append(g_run(rng))
+        # W — wide and long: 16k single-word draws under contention (several 64 KiB-of-output boundaries of any
+        # process-wide generator state fall inside the run)
+        for i in range(8):
+            k = (16, 8)[i % 2]
+            jobs.append(_job("W", rng, K=k, D=16384 // k, sizes=[6], types=("lut", "static")[(i // 2) % 2], preempt=PREEMPT[i % 4],
+                             warm=rng.randint(0, 1), **{"yield": rng.randint(0, 1)}))
+        # L4 — the two largest sizes with 256 draws on each of 4 threads that are not the first caller
+        for typ in ("lut", "static"):
+            for n in (11, 12):
+                jobs.append(_job("L4", rng, K=4, warm=1, D=256, sizes=[n], types=typ, preempt=rng.choice(PREEMPT), **{"yield": rng.randint(0, 1)}))
         n_s = 768
     for _ in range(n_s):
         jobs.append(s_run(rng))
